@@ -37,6 +37,9 @@ def wrap(r):
         if r.dtype == object:
             if r.ndim == 0:
                 return r.item()
+            if r.size and all(isinstance(x, (bool, np.bool_)) for x in r.flat):
+                # concrete truth values: give numpy a real bool array (masks, ~, sum behave as in plain numpy)
+                return np.asarray(r.view(np.ndarray), dtype=bool)
             return r.view(SymArray)
         return r
     if isinstance(r, tuple):
@@ -130,7 +133,14 @@ def _abs_cell(x):
     return abs(x)
 
 
+def _invert_cell(x):
+    if isinstance(x, (bool, np.bool_, SymBool)):
+        return b_not(x)
+    return ~x
+
+
 _CUSTOM_UFUNC = {
+    np.invert: _invert_cell,
     np.logical_and: lambda a, b: b_and(a, b),
     np.logical_or: lambda a, b: b_or(a, b),
     np.logical_xor: lambda a, b: b_xor(a, b),
@@ -201,7 +211,17 @@ class SymArray(np.ndarray):
     def astype(self, dtype, *a, **k):
         if dtype in (bool, np.bool_):
             return elementwise(lambda x: bool(x != 0) if not isinstance(x, (bool, SymBool)) else bool(x), self)
-        return self.copy()
+        try:
+            is_int = np.issubdtype(np.dtype(dtype), np.integer) or dtype is SymIntType
+        except TypeError:
+            is_int = dtype is SymIntType
+        out = self.copy()
+        if is_int:
+            pv = out.view(np.ndarray)
+            for idx in np.ndindex(*pv.shape):
+                if isinstance(pv[idx], (float, np.floating)):
+                    pv[idx] = int(pv[idx])
+        return out
 
     def __bool__(self):
         if self.size != 1:
